@@ -588,4 +588,181 @@ theorem described_session_x (fl : Flow) (hne : clientEp fl ≠ serverEp fl) (evs
   rw [hpk, dirSegs_flow_x fl o.checksumTest hne dir evs hd 0 (capInfo (evs.map CEv.cap)) (fun tag _ => rfl)]
   exact hio
 
+/-! ### 4. the three layers glued around one session, for any item list -/
+
+section Glue
+open TLX.Export TLX.Props.C01File2
+
+/-- **Items → output file, no abort alternative.** The read loop (any `-c`) delivers the items `xs` (frames, DSBs) and the
+    table `is`; `q` any packet of the flow of interest, whose TLS-relevant packets among the items are `p0 :: rest`. If
+    `connOut` of THE session object the loop builds for the flow, with the key log as it is at the end of the capture, is
+    `some blk`, and the write loop takes every frame of `blk` and whatever else the run exports, then the file is written and
+    `ReadsBack` exactly `blk`. -/
+theorem export_of_items_file (mask : Quic.Dissect.MaskFn) (H : Crypto.Prims) (P : Cipher.Prims) (args : Args)
+    (legacy : Bool) (keyFile : Option Keylog.Str) (file : Bytes)
+    (xs : List (MainLoop.Item Keylog.Key)) (is : List (Nat × Pipeline.Info))
+    (hing : Ingest.itemsWith Keylog.srcHexClass args.checksumTest legacy file = .ok (xs, is))
+    (pm : List (Int × Int)) (ports : List Int)
+    (hpm : Options.getPortMap Options.Src.bare args.mArg = .ok pm)
+    (hports : Options.serverPorts Options.Src.builtin Options.Src.pDefault args.pArg = .ok ports)
+    (q p0 : Pkt) (rest : List Pkt)
+    (hF : (tcpView (optsOf args ports pm) xs).filter (sameFlow q) = p0 :: rest)
+    (hcand : candidate (optsOf args ports pm) p0 = true)
+    (blk : List Pipeline.OutPkt)
+    (hsess : Pipeline.connOut H P (Ingest.lookup is)
+      { (Pipeline.tlsMachine H P (Ingest.lookup is)).new (optsOf args ports pm) p0 with pkts := p0 :: rest }
+      ((fileKeysOf keyFile).getD [] ++ dsbKeys (optsOf args ports pm) xs) = some blk)
+    (hblk : ∀ x ∈ blk, WritesOk x)
+    (hothers : ∀ out pre post, framesFrom mask H P freshState args (fileKeysOf keyFile) xs (Ingest.lookup is) = .ok out →
+      out = pre ++ blk ++ post → ∀ x ∈ pre ++ post, WritesOk x) :
+    ∃ f, exportFile mask H P args legacy keyFile file = .file f ∧ ReadsBack f blk := by
+  have hopt := optionsBad_false args pm ports hpm hports
+  obtain ⟨pre, post, hout⟩ := session_of_items mask H P (Ingest.lookup is) (optsOf args ports pm)
+    ((fileKeysOf keyFile).getD []) xs q p0 rest hF hcand
+  have hTM : (Pipeline.tlsMachine H P (Ingest.lookup is)).out
+      { (Pipeline.tlsMachine H P (Ingest.lookup is)).new (optsOf args ports pm) p0 with pkts := p0 :: rest }
+      ((fileKeysOf keyFile).getD [] ++ dsbKeys (optsOf args ports pm) xs) = blk := by
+    show (Pipeline.connOut H P _ _ _).getD [] = blk
+    rw [hsess]; rfl
+  rw [hTM] at hout
+  have hfr := framesFrom_eq mask H P args (fileKeysOf keyFile) xs (Ingest.lookup is) pm ports hpm hports
+  rw [hout] at hfr
+  have hwf := Lemmas.Export.framesFrom_wf mask H P freshState args _ _ _ _
+    (Lemmas.Export.itemsWith_good _ _ _ _ _ _ hing) hfr
+  have hall : ∀ x ∈ pre ++ blk ++ post, WritesOk x := by
+    intro x hx
+    simp only [List.mem_append] at hx
+    rcases hx with (hx | hx) | hx
+    · exact hothers _ pre post hfr rfl x (by simp [hx])
+    · exact hblk x hx
+    · exact hothers _ pre post hfr rfl x (by simp [hx])
+  have hex : ∃ f, fileOfFrames ((pre ++ blk ++ post).map Frame.ofOutPkt) = .ok f := by
+    apply (Props.C06Bytes.fileOf_ok_iff _ ?_).mpr
+    · intro fr hfr'
+      simp only [List.mem_map] at hfr'
+      obtain ⟨x, hx, rfl⟩ := hfr'
+      exact hall x hx
+    · intro fr hfr'
+      simp only [List.mem_map] at hfr'
+      obtain ⟨x, hx, rfl⟩ := hfr'
+      exact hwf x hx
+  obtain ⟨f0, hf0⟩ := hex
+  have hf0' : fileOf (pre ++ blk ++ post) = .ok f0 := hf0
+  rcases Props.Export.exportFrom_stages mask H P freshState args legacy keyFile file hopt with
+    ⟨e, hi, _⟩ | ⟨xs', is', out, hi, hf, hw⟩
+  · rw [hing] at hi; cases hi
+  rw [hing] at hi
+  cases hi
+  rw [hfr] at hf
+  cases hf
+  rcases hw with ⟨e, hw, _⟩ | ⟨f, hw, he⟩
+  · rw [hf0'] at hw; cases hw
+  · refine ⟨f, he, ?_⟩
+    obtain ⟨A, C, B, _, _, hB, hr, hg⟩ := file_of_frames pre blk post f hwf hw
+    exact ⟨A, C, B, hB, hr, hg⟩
+
+end Glue
+
+/-! ### a sufficient condition for "whatever else the run exports fits": the loop ignores everything else -/
+
+section Others
+open TLX.Export TLX.Props.C01File2
+
+/-- the main loop ignores the packet — not TCP / UDP over IP, no payload, non-QUIC UDP, or (with `-c`) a bad checksum -/
+def IgnoredC (o : Opts) (e : CapEv) : Prop :=
+  ∀ tag, ∃ w, (classify o (.frame (pktOfC o.checksumTest tag e.d)) : Class Keylog.Key) = .ignore w
+
+theorem dsbKeys_itemsFromC (o : Opts) (c : Bool) (cap : List CapEv) (tag : Nat) : dsbKeys o (itemsFromC c tag cap) = [] := by
+  induction cap generalizing tag with
+  | nil => rfl
+  | cons e rest ih => rw [itemsFromC, dsbKeys_cons, dsbKeys_frame, ih]; rfl
+
+theorem classify_tcp_c (o : Opts) (p : Pkt) (h : p.l4 = .tcp) :
+    (∃ q, (classify o (.frame p) : Class Keylog.Key) = .tls q) ∨
+      (∃ w, (classify o (.frame p) : Class Keylog.Key) = .ignore w) := by
+  simp only [classify, h]
+  split
+  · exact .inr ⟨_, rfl⟩
+  · split
+    · exact .inr ⟨_, rfl⟩
+    · exact .inl ⟨_, rfl⟩
+
+theorem views_of_ignored_c (fl : Flow) (o : Opts) (kl : List Keylog.Key) (evs : List CEv)
+    (hd : DescribedX fl o.checksumTest evs) (hign : ∀ e, CEv.foreign e ∈ evs → IgnoredC o e) (n : Nat) :
+    Spec.Demux.tcpView o (itemsFromC o.checksumTest n (evs.map CEv.cap)) = flowPkts fl n evs ∧
+      quicView o kl (itemsFromC o.checksumTest n (evs.map CEv.cap)) = [] := by
+  induction evs generalizing n with
+  | nil => exact ⟨rfl, rfl⟩
+  | cons ev rest ih =>
+    obtain ⟨i1, i2⟩ := ih (fun x hx => hd x (by simp [hx])) (fun e he => hign e (by simp [he])) (n + 1)
+    have hev := hd ev (by simp)
+    rw [List.map_cons, itemsFromC, tcpView_cons, i1]
+    cases ev with
+    | seg t d fr tcp =>
+      obtain ⟨hs, hv⟩ : IsSegX fl d fr tcp ∧ (o.checksumTest = true → tcp.payload ≠ [] → CsumValid fr tcp) := hev
+      have hb := csumBit_segX fl o.checksumTest d fr tcp hs hv
+      have hp : pktOfC o.checksumTest n (viewOf fr) =
+          ⟨.tcp, if d then serverEp fl else clientEp fl, if d then clientEp fl else serverEp fl, tcp.payload, true, n⟩ := by
+        simp only [pktOfC, hb, pktOf_segX fl d fr tcp hs n]
+      constructor
+      · rw [tcpView_frame_c o]
+        simp only [CEv.cap, hp, flowPkts]
+        by_cases hpl : tcp.payload = [] <;> simp [hpl]
+      · rw [quicView_skip o kl _ _ (classify_tcp_c o _ (by simp only [CEv.cap, hp])), i2]
+    | foreign e =>
+      obtain ⟨w, hw⟩ := hign e (by simp) n
+      constructor
+      · have : Spec.Demux.tcpView o [(.frame (pktOfC o.checksumTest n e.d) : MainLoop.Item Keylog.Key)] = [] := by
+          simp [Spec.Demux.tcpView, hw]
+        rw [show (CEv.foreign e).cap = e from rfl, this]; rfl
+      · show quicView o kl (Item.frame (pktOfC o.checksumTest n e.d) :: _) = []
+        rw [quicView_skip o kl _ _ (.inr ⟨w, hw⟩), i2]
+
+/-- **Nothing else is exported when the loop ignores everything else** (any `-c`) -/
+theorem othersFit_of_ignored_c (mask : Quic.Dissect.MaskFn) (H : Crypto.Prims) (P : Cipher.Prims) (args : Args)
+    (keyFile : Option Keylog.Str) (fl : Flow) (evs : List CEv)
+    (pm : List (Int × Int)) (ports : List Int)
+    (hpm : Options.getPortMap Options.Src.bare args.mArg = .ok pm)
+    (hports : Options.serverPorts Options.Src.builtin Options.Src.pDefault args.pArg = .ok ports)
+    (hd : DescribedX fl args.checksumTest evs)
+    (hign : ∀ e, CEv.foreign e ∈ evs → IgnoredC (optsOf args ports pm) e)
+    (p0 : Pkt) (rest : List Pkt) (hfp : flowPkts fl 0 evs = p0 :: rest)
+    (hcand : candidate (optsOf args ports pm) p0 = true) (blk : List Pipeline.OutPkt)
+    (hsess : Pipeline.connOut H P (capInfo (evs.map CEv.cap))
+      (sessionOf (evs.map CEv.cap) (optsOf args ports pm) p0 rest) ((fileKeysOf keyFile).getD []) = some blk) :
+    ∀ out pre post, framesFrom mask H P freshState args (fileKeysOf keyFile)
+        (itemsFromC args.checksumTest 0 (evs.map CEv.cap)) (capInfo (evs.map CEv.cap)) = .ok out →
+      out = pre ++ blk ++ post → ∀ x ∈ pre ++ post, WritesOk x := by
+  intro out pre post hout hsplit
+  have hd' : DescribedX fl (optsOf args ports pm).checksumTest evs := hd
+  obtain ⟨hv1, hv2⟩ := views_of_ignored_c fl (optsOf args ports pm) ((fileKeysOf keyFile).getD []) evs hd' hign 0
+  have hv1' : Spec.Demux.tcpView (optsOf args ports pm) (itemsFromC args.checksumTest 0 (evs.map CEv.cap)) = flowPkts fl 0 evs :=
+    hv1
+  have hv2' : quicView (optsOf args ports pm) ((fileKeysOf keyFile).getD []) (itemsFromC args.checksumTest 0 (evs.map CEv.cap))
+      = [] := hv2
+  have hF := flow_filter_c fl (optsOf args ports pm) evs hd' 0
+  rw [hv1] at hF
+  have hall : ∀ x ∈ flowPkts fl 0 evs, sameFlow (refPkt fl) x = true := by
+    intro x hx
+    have : x ∈ (flowPkts fl 0 evs).filter (sameFlow (refPkt fl)) := by rw [hF]; exact hx
+    exact (List.mem_filter.mp this).2
+  have hfr := framesFrom_eq mask H P args (fileKeysOf keyFile) (itemsFromC args.checksumTest 0 (evs.map CEv.cap))
+    (capInfo (evs.map CEv.cap)) pm ports hpm hports
+  rw [Props.C18.fresh_run_is, hv1', hv2', dsbKeys_itemsFromC, List.append_nil,
+    Props.C04.tls_alone_is_run _ _ (refPkt fl) _ hall, hfp] at hfr
+  simp only [alone, hcand, if_true, Option.toList, quicRun, List.foldl_nil, List.flatMap_nil, List.append_nil,
+    List.flatMap_cons, feedAll_tls, sessionOf_eq] at hfr
+  have hTM : (Pipeline.tlsMachine H P (capInfo (evs.map CEv.cap))).out
+      (sessionOf (evs.map CEv.cap) (optsOf args ports pm) p0 rest) ((fileKeysOf keyFile).getD []) = blk := by
+    show (Pipeline.connOut H P _ _ _).getD [] = blk
+    rw [hsess]; rfl
+  rw [hTM] at hfr
+  rw [hfr] at hout
+  cases hout
+  obtain ⟨h1, h2⟩ := append3_self pre blk post hsplit
+  subst h1; subst h2
+  intro x hx; cases hx
+
+end Others
+
 end TLX.Lemmas.C01Full
